@@ -16,7 +16,7 @@ RULE = (
     "entries inside real visits or padding"
 )
 REQUIRED = {"cmp_state_terms": 150, "cmp_suffstats": 150, "cmp_mstep": 60, "cmp_personalize": 20, "cmp_fit": 10, "twins_garbage": 30, "twins_widened": 12,
-            "masked_in_visit_entries_cases": 8, "padding_cases": 12, "cmp_reput": 100, "cmp_noise_recount": 15, "cmp_noise_recount_frozen_state_averaged_steps": 20, "algebra_compared": 300,
+            "masked_in_visit_entries_cases": 8, "padding_cases": 12, "cmp_reput": 100, "cmp_noise_recount": 15, "cmp_noise_recount_frozen_state_averaged_steps": 20, "algebra_compared": 300, "fit_initialisations_checked": 60,
             "algebra_compared_int_weights": 40, "algebra_compared_graded_weights": 40}
 ASSUMPTIONS = [
     "garbage twins: bit-identity demanded (same shapes and op order; masked numbers must never enter a sum)",
@@ -391,6 +391,37 @@ def run_shard(spec, ctx):
             if has_in_visit or has_pad:
                 for fam in ("state_terms", "suffstats", "mstep", "personalize"):
                     ctx.distinct(case["model"], missing, twin_kind, gname or w, fam)
+        # ---- what the FIT itself loads (its own initialisation path): every observed entry, whatever the padding / trailing empty visits -------
+        try:
+            from vf.checks.c02 import make_algo as _mk
+
+            want_n = float((ds.mask != 0).sum())
+            want_l2 = float((ds.values.double() ** 2 * (ds.mask != 0)).sum())
+            for label, tw_ in (("as loaded", ds), ("widened", make_twin(ds, ctx.rng("fitload", spec["k"], i), "widened", None, int(rng.integers(1, 4)))),
+                               ("garbage", make_twin(ds, ctx.rng("fitload2", spec["k"], i), "garbage", "rand", 0))):
+                m4 = new_model()
+                m4.initialize(ds)
+                _a4, st4 = _mk(m4, tw_, ctx.rng("fitload3", spec["k"], i), n_iter=3)
+                names4 = set(st4.dag.sorted_variables_names)
+                ctx.count("fit_initialisations_checked")
+                ctx.evaluated()
+                got_n = float((st4["y"].weight != 0).sum()) if "y" in names4 and st4["y"].weight is not None else None
+                if "n_obs" in names4:
+                    got_n = float(st4["n_obs"])
+                if got_n is not None and abs(got_n - want_n) > 0.5:
+                    ctx.violation("masked/fit/observations-dropped-or-added", f"the state prepared by the fit for the {label} dataset counts {got_n:.0f} observations, the table "
+                                  f"has {want_n:.0f}", {"index": i, "model": list(map(str, g)), "missing": missing, "twin": label})
+                    break
+                if "y_L2" in names4 and noise and noise.startswith("gaussian"):
+                    got_l2 = float(st4["y_L2"])
+                    if abs(got_l2 - want_l2) > 1e-4 * max(1.0, abs(want_l2)):
+                        ctx.violation("masked/fit/observations-dropped-or-added", f"the state prepared by the fit for the {label} dataset has sum of squared observations "
+                                      f"{got_l2:.6g}, the table's observed entries give {want_l2:.6g}", {"index": i, "model": list(map(str, g)), "missing": missing, "twin": label})
+                        break
+        except Exception as e:
+            ctx.count("fit_initialisation_check_skipped")
+            ctx.note(f"fit_initialisation_check_skipped_{type(e).__name__}", str(e)[:200])
+
         # ---- noise recount across the real maximisation steps of one algorithm object on a FROZEN state (no sampling in between): the
         # residuals do not move, so after every step - memory-less, first with memory, averaged - the noise level must be the RMS residual
         # over the observed entries of the table (a twin comparison is blind to an error both twins share) --------------------------------
